@@ -35,6 +35,9 @@ Methods ==
     [name |-> "CreateThing", cs |-> FALSE, ss |-> FALSE, void |-> FALSE, dep |-> FALSE, flat |-> <<"name">>,
        auto |-> {"request_id", "opt_request_id"}],
     [name |-> "PlainThing",  cs |-> FALSE, ss |-> FALSE, void |-> FALSE, dep |-> FALSE, flat |-> <<>>, auto |-> {}],
+    \* RPC names that need disambiguation in the surface (Python keyword; a name the transport uses itself): the wire path keeps them
+    [name |-> "Import",      cs |-> FALSE, ss |-> FALSE, void |-> FALSE, dep |-> FALSE, flat |-> <<>>, auto |-> {}],
+    [name |-> "CreateChannel", cs |-> FALSE, ss |-> TRUE, void |-> FALSE, dep |-> FALSE, flat |-> <<>>, auto |-> {}],
     [name |-> "WatchThings", cs |-> FALSE, ss |-> TRUE,  void |-> FALSE, dep |-> FALSE, flat |-> <<"name">>, auto |-> {}],
     [name |-> "UploadThings", cs |-> TRUE, ss |-> FALSE, void |-> FALSE, dep |-> FALSE, flat |-> <<>>, auto |-> {}],
     [name |-> "ChatThings",  cs |-> TRUE,  ss |-> TRUE,  void |-> FALSE, dep |-> FALSE, flat |-> <<>>, auto |-> {}],
